@@ -177,6 +177,15 @@ def main():
     out_path = sys.argv[1] if len(sys.argv) > 1 else os.path.join(os.path.dirname(os.path.abspath(__file__)), "..", "coq", "Gen", "Consts.v")
     text, missing, values = generate()
     status = {"missing": missing, "fallback": False, "changed": False}
+    # C36: the PII regexes as AST terms (own module; falls back to its snapshot on its own)
+    try:
+        import translate_pii
+        pii_changed, pii_missing = translate_pii.run()
+    except Exception as ex:  # noqa: BLE001
+        pii_changed, pii_missing = False, [("PiiPatterns", "src/pii.rs", "regexes", repr(ex))]
+    if pii_missing:
+        status["missing"] = list(missing) + pii_missing; status["fallback"] = True
+    status["changed"] = pii_changed
     if missing:
         # a constant could not be found (renamed / moved): keep the committed snapshot, say so
         status["fallback"] = True
